@@ -12,7 +12,7 @@ From Coq.Strings Require Import Byte.
 Require Import GV.Base.Res GV.Base.Byt GV.Base.Ints GV.Model.Leb GV.Model.Prim GV.Spec.LebSpec.
 Require Import GV.Spec.CfiSpec GV.Model.CfiRd.
 Require Export GV.Proofs.CfiRdBase GV.Proofs.CfiRdPtr GV.Proofs.CfiRdBs GV.Proofs.CfiRdIter
-               GV.Proofs.CfiRdSafe GV.Proofs.CfiRdEnt.
+               GV.Proofs.CfiRdSafe GV.Proofs.CfiRdEnt GV.Proofs.CfiRdHdr.
 Import ListNotations.
 Local Open Scope N_scope.
 
@@ -100,3 +100,16 @@ Definition ex_es : list entry :=
     EZero;
     EFde (mkfde_rec false 0%nat 1 1 1 [] []) ].
 
+
+(* the two FDEs of ex_es as the reader decodes them, and a header for that section:
+   eh_frame_ptr = 0x1000 (udata4), two udata4 rows sorted by initial address *)
+Definition ex_sec : list byte := enc_section (sp_of ex_cfg) ex_es.
+Definition ex_fds : list fde :=
+  Eval vm_compute in
+    match entries_all true ex_cfg ex_sec with
+    | Ok (items, _) => match parsed_fdes true ex_cfg ex_sec items with Some l => l | None => [] end
+    | _ => []
+    end.
+Definition ex_rows2 : list (list byte * list byte) :=
+  [ (un_bytes 4 false 3907, un_bytes 4 false (4096 + 51)); (un_bytes 4 false 8228, un_bytes 4 false (4096 + 28)) ].
+Definition ex_hdr2 : hdr := mkhdr 8 false (Direct 4096) 2 3 (mkrd 12 (flat ex_rows2)).
